@@ -201,7 +201,10 @@ class C17Episode(Episode):
         st = self.writers.get(pid)
         if p is None or not p.alive or st is None:
             return
-        st['self_exit'] = True
+        # a worker the daemon is already terminating does not count as
+        # "exited by itself": the tail of its output may be cut like that of
+        # any terminated worker
+        st['self_exit'] = p.term_first is None
         self.fired['writer_self_exit'] += 1
         k.external_exit(pid, 0)
 
